@@ -454,7 +454,7 @@ func (c *Case) canon() string {
 		fmt.Fprintf(&sb, "reconf a=%d b=%d new=%s,%s,%s,%s", len(c.Reconf.A), len(c.Reconf.B), optStr(x.QueueSize), optStr(x.MaxWait), optStr(x.MaxBuf), optStr(x.ZipMin))
 	}
 	if c.Free != nil {
-		fmt.Fprintf(&sb, "free p=%d d=%d early=%v accept=%s slow=%d", len(c.Free.Producers), len(c.Free.Direct), c.Free.StopEarly, c.Free.Accept, c.Free.SlowUs)
+		fmt.Fprintf(&sb, "free p=%d d=%d early=%v accept=%s slow=%d callers=%d reload=%v", len(c.Free.Producers), len(c.Free.Direct), c.Free.StopEarly, c.Free.Accept, c.Free.SlowUs, c.Free.DirectCallers, c.Free.ReloadStorm)
 		for _, p := range c.Free.Producers {
 			sb.WriteString(" [")
 			for _, it := range p {
